@@ -22,7 +22,7 @@ func init() {
 
 var c08Actions = []string{"change", "changeEmpty", "add0", "addNeg", "remove0", "removeNeg", "create", "delete", "custom", "evChange", "evDotted", "timeout", "reply"}
 var c08Apply = []string{"absent", "ok", "error", "nochange"}
-var c08Lis = []string{"none", "same", "other", "mounted", "two"}
+var c08Lis = []string{"none", "same", "other", "mounted", "two", "nested"}
 var c08Types = []string{"model", "collection", "unset"}
 
 type c08Case struct {
@@ -54,13 +54,17 @@ func jsonOf(v interface{}) string {
 // c08Reference computes the expected global log.
 func c08Reference(c c08Case, rname string) []string {
 	var log []string
-	nlis := map[string]int{"none": 0, "same": 1, "other": 1, "mounted": 1, "two": 2}[c.Lis]
+	nlis := map[string]int{"none": 0, "same": 1, "other": 1, "mounted": 1, "two": 2, "nested": 2}[c.Lis]
+	ev := "event." + rname + "."
 	listeners := func(desc string) {
 		for i := 0; i < nlis; i++ {
 			log = append(log, fmt.Sprintf("listener%d %s", i, desc))
+			if c.Lis == "nested" && i == 0 && !strings.HasPrefix(desc, "custom") {
+				// the first listener emits a custom event of its own while handling the outer one
+				log = append(log, "pub "+ev+`custom {"p":1}`, `listener0 custom payload={"p":1}`, `listener1 custom payload={"p":1}`)
+			}
 		}
 	}
-	ev := "event." + rname + "."
 	replied := false
 	for _, a := range c.Script {
 		failed := false
@@ -335,6 +339,16 @@ func c08Run(c c08Case) (log []string, rname string, problems []string) {
 			s.Handle("r", opts...)
 			s.AddListener("r", lis(0))
 			s.AddListener("r", lis(1))
+		case "nested":
+			s.Handle("r", opts...)
+			l0 := lis(0)
+			s.AddListener("r", func(e *res.Event) {
+				l0(e)
+				if e.Name != "custom" {
+					e.Resource.Event("custom", map[string]int{"p": 1})
+				}
+			})
+			s.AddListener("r", lis(1))
 		default:
 			s.Handle("r", opts...)
 		}
@@ -414,7 +428,7 @@ func runC08(c *seqCtx) {
 			for _, ty := range c08Types {
 				for _, ctx := range []string{"call", "with"} {
 					for _, sc := range scripts {
-						if len(sc) == maxLen && !c.thorough && (li == "other" || li == "mounted") && len(sc) > 2 {
+						if len(sc) == maxLen && !c.thorough && (li == "other" || li == "mounted" || li == "nested") && len(sc) > 2 {
 							continue // quick: the two indirect listener placements only up to length 2
 						}
 						if !c.Mine() {
